@@ -257,7 +257,8 @@ inductive LineCase (x : String) : Prop where
       (hl : lexLine x.toList = .error .syntax)
   | pair (k v : String) (hb : stripComments x ≠ "") (hs : splitColon (stripComments x) = [k, v])
       (hl : lexLine x.toList =
-        if (Key.ofText (strip k) = .term ∨ Key.ofText (strip k) = .rule) ∧ k ≠ strip k then .error .syntax
+        if (Key.ofText (strip k) = .term ∨ Key.ofText (strip k) = .rule) ∧ k ≠ strip k
+        then .ok (some ⟨.other k, textTok (strip v).toList⟩)
         else .ok (some ⟨Key.ofText (strip k), lexValue (Key.ofText (strip k)) (strip v).toList⟩))
 
 theorem lineCase (x : String) : LineCase x := by
@@ -273,7 +274,7 @@ theorem lineCase (x : String) : LineCase x := by
         | (_, []) => .error .syntax
         | (k, _ :: v) =>
           if (Key.ofText (String.ofList (trimChars k)) = .term ∨ Key.ofText (String.ofList (trimChars k)) = .rule) ∧ k ≠ trimChars k
-          then .error .syntax
+          then .ok (some ⟨.other (String.ofList k), textTok (trimChars v)⟩)
           else .ok (some ⟨Key.ofText (String.ofList (trimChars k)), lexValue (Key.ofText (String.ofList (trimChars k))) (trimChars v)⟩) := by
       unfold lexLine
       show (if (lineBody x.toList).isEmpty = true then _ else _) = _
